@@ -773,6 +773,45 @@ theorem frac_setter_old_fails_on :
   revert this
   decide +kernel
 
+/-! ### the atoms of a file body with other instructions between them -/
+
+theorem parse_body_atoms (m : M3 ℝ) (ls : List (BodyLine ℝ)) (s : ParseSt ℝ) :
+    (ls.foldl (parseLine m) s).atoms = s.atoms ++ (specBody ls).map (fun pu => parseAtom m pu.1 pu.2) := by
+  induction ls generalizing s with
+  | nil => simp [specBody]
+  | cons l ls ih =>
+    rw [List.foldl_cons, ih]
+    cases l <;> simp [parseLine, specBody]
+
+/-- **parse_body_coherent**: whatever instructions stand between the atoms of a file (MOVE with any number of parameters,
+    PART, RESI, AFIX, restraints, comments - ANY list of lines), the atoms the parser makes are, in order, the atoms
+    written in the file; each reports the position and U values of its own line, and its cached Cartesian coordinates are
+    the orthogonalisation of the position it reports.  (A parser that reads `shx.move` when it fills the Cartesian cache
+    only - seeded change C12-w4m1 - is not this model: the correspondence run tells them apart.) -/
+theorem parse_body_coherent (m : M3 ℝ) (ls : List (BodyLine ℝ)) :
+    (parseBody m ls).atoms.map (fun a => (a.frac, a.cart, a.uvals))
+      = (specBody ls).map (fun pu => (pu.1, mulVec m pu.1, pu.2)) := by
+  rw [parseBody, parse_body_atoms]
+  simp [parseAtom, Function.comp_def]
+
+/-- … so for every valid cell, every atom of the file has `cart_coords` = conventional-setting image of its `frac_coords`,
+    and the inverse orthogonalisation maps it back -/
+theorem parse_body_cart {sqrt : ℝ → ℝ} (hs : IsSqrt sqrt) (c : Cell ℝ) (h : ValidCell c) (ls : List (BodyLine ℝ)) :
+    ∀ a ∈ (parseBody (orthoM sqrt c) ls).atoms, a.cart = mulVec (cholUpper sqrt (metric c)) a.frac := by
+  intro a ha
+  rw [parseBody, parse_body_atoms] at ha
+  simp only [List.nil_append, List.mem_map] at ha
+  obtain ⟨pu, _, rfl⟩ := ha
+  rw [← ortho_is_cholesky hs c h]; rfl
+
+/-- a body that meets the description: two MOVE lines (four and two parameters), another instruction, three atoms -/
+example : ((parseBody (orthoM sqrtW cellW)
+      [.atom ⟨1/2, 1/3, 1/4⟩ uW, .move [1/2, 1/4, -1/8, -1], .atom ⟨1/5, 1/7, 1/9⟩ uW, .other, .move [1, 2],
+       .atom ⟨-1, 2, 1/2⟩ uW]).atoms.map (fun a => (a.frac.x, a.frac.y, a.frac.z))) = [(1/2, 1/3, 1/4), (1/5, 1/7, 1/9), (-1, 2, 1/2)] ∧
+    ((parseBody (orthoM sqrtW cellW) [.move [1/2, 1/4, -1/8, -1], .other, .move [1, 2]]).move.map (fun mv => mv.2)) = some none ∧
+    (moveOf [(1/2 : ℚ), 1/4, -1/8, -1]).2 = some (-1) ∧ (moveOf [(1/2 : ℚ), 1/4, -1/8, -1]).1.map V3.z = some (-1/8) := by
+  decide +kernel
+
 /-- **file_history_coherent**: on one Shelxfile object, after ANY sequence of atom edits and in-place changes of the
     cell (`shx.cell.set`), what is kept outside the CELL object belongs to the CURRENT cell: `Shelxfile.orthogonal_matrix`
     is the orthogonalisation matrix of the current cell and the atom's Cartesian coordinates are its image of the
